@@ -305,4 +305,161 @@ theorem C18_code_xy_equiv (xs ys : List Rat) (h : xs.length = ys.length) :
         omega
   rw [C18_code_parse_xy, if_pos (hlen xs ys h), C18_xy_equiv xs ys h]
 
+/-! ## The code itself: `TableReaderBase._findIndex` / `getValue` regenerated from the source
+
+`Atsim.Gen.Logic.find_index / get_value` are the two methods as `translator/py2lean_logic.py` produces them on every run (the object is its list of `(x, y)` rows;
+`bisect.bisect_left(self.xproxy, x)` is an operation handed in - here the model's `bisectLeft`, the number of leading rows with a smaller abscissa, which is what
+`bisect_left` returns on the sorted rows `_populate` leaves).  For EVERY table and abscissa they compute the model's `findIndex` / `getValue`, the functions
+`C18_at_points`, `C18_between` and `C18_outside` are about; and every list index the code uses is inside the table (no `IndexError` is hidden by the translation's total
+`listGet`). -/
+
+/-- the element at the position where `takeWhile` stops does not satisfy the predicate -/
+theorem tw_not {α : Type} (p : α → Bool) (l : List α) (r : α)
+    (h : l[(l.takeWhile p).length]? = some r) : p r = false := by
+  induction l with
+  | nil => simp at h
+  | cons a t ih =>
+    by_cases hp : p a = true
+    · simp [List.takeWhile, hp] at h
+      exact ih h
+    · simp [List.takeWhile, hp] at h
+      subst h; simpa using hp
+
+/-- `takeWhile` that keeps everything: every element satisfies the predicate -/
+theorem tw_all {α : Type} (p : α → Bool) (l : List α)
+    (h : (l.takeWhile p).length = l.length) : ∀ a ∈ l, p a = true := by
+  induction l with
+  | nil => simp
+  | cons a t ih =>
+    by_cases hp : p a = true
+    · simp [List.takeWhile, hp] at h
+      intro b hb
+      rcases List.mem_cons.mp hb with rfl | hb
+      · exact hp
+      · exact ih h b hb
+    · simp [List.takeWhile, hp] at h
+
+/-- inside the range test the `bisect_left` result is a valid index, its row is not below `x`, and it is positive unless row 0 is at `x` -/
+theorem bisect_facts (a : Row) (t : List Row) (x : Rat)
+    (h1 : ¬ x < a.1) (h2 : ¬ x > ((a :: t).getLast (by simp)).1) :
+    ∃ (h : bisectLeft (a :: t) x < (a :: t).length),
+      (¬ ((a :: t)[bisectLeft (a :: t) x]).1 = x → 1 ≤ bisectLeft (a :: t) x) := by
+  have hle : bisectLeft (a :: t) x ≤ (a :: t).length := (List.takeWhile_sublist _).length_le
+  have hlt : bisectLeft (a :: t) x < (a :: t).length := by
+    rcases Nat.lt_or_ge (bisectLeft (a :: t) x) (a :: t).length with h | h
+    · exact h
+    · have hall := tw_all _ _ (Nat.le_antisymm hle h) _ (List.getLast_mem (l := a :: t) (by simp))
+      simp only [decide_eq_true_eq] at hall
+      exact absurd hall h2
+  refine ⟨hlt, ?_⟩
+  intro hne
+  rcases Nat.eq_zero_or_pos (bisectLeft (a :: t) x) with h0 | h0
+  · exfalso
+    have hn := tw_not (fun r : Row => decide (r.1 < x)) (a :: t) _ (List.getElem?_eq_getElem hlt)
+    simp only [decide_eq_false_iff_not] at hn
+    apply hne
+    have : (a :: t)[bisectLeft (a :: t) x] = a := by simp [h0]
+    rw [this] at hn ⊢
+    exact le_antisymm (not_lt.mp h1) (not_lt.mp hn)
+  · exact h0
+
+open Atsim.Gen.Logic in
+theorem listGet_nat_lt (l : List Row) (n : Nat) (h : n < l.length) : listGet l ((n : Nat) : Int) = l[n] := by
+  simp only [listGet, Int.toNat_natCast, List.getD_eq_getElem?_getD, List.getElem?_eq_getElem h, Option.getD_some]
+
+open Atsim.Gen.Logic in
+/-- `_findIndex` on a non-empty table with the two boundary subscripts resolved -/
+theorem find_index_cons (B : List Row → Rat → Int) (a : Row) (t : List Row) (x : Rat) :
+    find_index B (a :: t) x =
+      if x < a.1 then none else if x > ((a :: t).getLast (by simp)).1 then none
+      else if (listGet (a :: t) (B (a :: t) x)).1 == x then some (B (a :: t) x) else some (B (a :: t) x - 1) := by
+  have hlast : listGet (a :: t) ((((a :: t).length : Nat) : Int) - 1) = (a :: t).getLast (by simp) := by
+    have : ((((a :: t).length : Nat) : Int) - 1).toNat = (a :: t).length - 1 := by simp
+    simp only [listGet, this, List.getD_eq_getElem?_getD]
+    rw [← List.getLast?_eq_getElem?, List.getLast?_eq_some_getLast (by simp)]
+    rfl
+  have hfirst : listGet (a :: t) (0 : Int) = a := by simp [listGet]
+  have hlen : ((((a :: t).length : Nat) : Int) == (0 : Int)) = false := by simp; omega
+  unfold find_index
+  simp only [hlen, hfirst, hlast]
+  by_cases h1 : x < a.1
+  · simp [h1]
+  by_cases h2 : x > ((a :: t).getLast (by simp)).1
+  · simp [h1, h2]
+  simp [h1, h2]
+
+open Atsim.Gen.Logic in
+/-- **code tie**: `_findIndex` -/
+theorem C18_code_find_index (tbl : List Row) (x : Rat) :
+    find_index (fun t y => ((bisectLeft t y : Nat) : Int)) tbl x = (findIndex tbl x).map (fun (n : Nat) => (n : Int)) := by
+  cases tbl with
+  | nil => simp [find_index, findIndex]
+  | cons a t =>
+    rw [find_index_cons]
+    unfold findIndex
+    simp only [List.head?_cons, List.getLast?_eq_some_getLast (l := a :: t) (by simp)]
+    by_cases h1 : x < a.1
+    · simp [h1]
+    by_cases h2 : x > ((a :: t).getLast (by simp)).1
+    · simp [h1, h2]
+    obtain ⟨hlt, hpos⟩ := bisect_facts a t x h1 h2
+    simp only [h1, h2, listGet_nat_lt _ _ hlt, List.getElem?_eq_getElem hlt]
+    by_cases he : ((a :: t)[bisectLeft (a :: t) x]).1 = x
+    · simp [he]
+    · have := hpos he
+      simp [he]
+      omega
+
+open Atsim.Gen.Logic in
+/-- the index `_findIndex` returns is a valid index, and so is the `bisect_left` result the code subscripts with on the way -/
+theorem C18_code_index_in_range (tbl : List Row) (x : Rat) (i : Int)
+    (h : find_index (fun t y => ((bisectLeft t y : Nat) : Int)) tbl x = some i) :
+    0 ≤ i ∧ i < (tbl.length : Int) ∧ bisectLeft tbl x < tbl.length := by
+  cases tbl with
+  | nil => simp [find_index] at h
+  | cons a t =>
+    rw [find_index_cons] at h
+    by_cases h1 : x < a.1
+    · simp [h1] at h
+    by_cases h2 : x > ((a :: t).getLast (by simp)).1
+    · simp [h1, h2] at h
+    obtain ⟨hlt, hpos⟩ := bisect_facts a t x h1 h2
+    simp only [h1, h2, if_false, listGet_nat_lt _ _ hlt] at h
+    by_cases he : ((a :: t)[bisectLeft (a :: t) x]).1 = x
+    · simp [he] at h
+      subst h
+      exact ⟨by omega, by omega, hlt⟩
+    · have := hpos he
+      simp [he] at h
+      subst h
+      exact ⟨by omega, by omega, hlt⟩
+
+open Atsim.Gen.Logic in
+/-- **code tie**: `getValue` -/
+theorem C18_code_get_value (tbl : List Row) (x : Rat) :
+    get_value (fun t y => ((bisectLeft t y : Nat) : Int)) tbl x = getValue tbl x := by
+  unfold get_value getValue
+  have hfi := C18_code_find_index tbl x
+  cases hn : findIndex tbl x with
+  | none => rw [hn] at hfi; simp [hfi]
+  | some n =>
+    rw [hn] at hfi
+    simp only [Option.map_some] at hfi
+    have hr := C18_code_index_in_range tbl x _ hfi
+    have hnlt : n < tbl.length := by omega
+    simp only [hfi, listGet_nat_lt _ _ hnlt, List.getElem?_eq_getElem hnlt]
+    by_cases he : (tbl[n]).1 = x
+    · simp [he]
+    · by_cases hlast : n + 1 = tbl.length
+      · have hi : (((n : Int) + 1) == ((tbl.length : Nat) : Int)) = true := by simp; omega
+        have hnone : tbl[n + 1]? = none := by simp; omega
+        simp [he, hi, hnone]
+      · have hi : (((n : Int) + 1) == ((tbl.length : Nat) : Int)) = false := by simp; omega
+        have hlt' : n + 1 < tbl.length := by omega
+        have hg : listGet tbl ((n : Int) + 1) = tbl[n + 1] := by
+          have := listGet_nat_lt tbl (n + 1) hlt'
+          simpa using this
+        simp [he, hi, hg, List.getElem?_eq_getElem hlt']
+
+
 end Atsim.C18
